@@ -84,7 +84,8 @@ class Session(object):
         return canon.point_value_assign(point, self.pvals, self.dim)
 
     def new_point(self, vec):
-        x = self.pep.set_initial_point()
+        # names are free-form labels: iterates are often all called "x" (or after the block just updated)
+        x = self.pep.set_initial_point(name=self.rng.choice([None, None, None, "x", "x", "y", "Point_1"]))
         self.bind_point(x, vec)
         return x
 
@@ -92,8 +93,21 @@ class Session(object):
         """f.oracle at a Point already bound; binds the new leaves."""
         g, v = self.f.oracle(x)
         xv = self.pvalue(x)
+        greal = self.member.grad(xv, self.rng)          # the (sub)gradient the real run picks: ANY admissible one
         if g.get_is_leaf() and id(g) not in self.pvals:
-            self.bind_point(g, self.member.grad(xv, self.rng))
+            self.bind_point(g, greal)
+        elif not self.f.reuse_gradient:
+            # a function that is not declared differentiable answered with an object that is already tied to values: the
+            # model then cannot represent the admissible subgradient the real run picked here
+            try:
+                gv = self.pvalue(g)
+                self.n_requery = getattr(self, "n_requery", 0) + 1
+                if float(np.max(np.abs(gv - greal), initial=0.0)) > 1e-9 * (1.0 + float(np.max(np.abs(greal), initial=0.0))):
+                    self.unrepresentable = getattr(self, "unrepresentable", []) + [
+                        "the subgradient answered at an already evaluated point is tied to %s, the real run picked the admissible %s"
+                        % (np.round(gv, 6).tolist(), np.round(greal, 6).tolist())]
+            except KeyError:
+                pass
         if v.get_is_leaf() and id(v) not in self.evals:
             self.evals[id(v)] = self.member.value(xv)
         return g, v
@@ -139,6 +153,9 @@ class Session(object):
                 self.evals[id(fs)] = m.value(st)
                 pts.append(xs)
                 kinds.append("stationary")
+                if rng.random() < 0.5:
+                    self.oracle(xs)     # the method may well start at (or come back to) the optimum: another subgradient there
+                    kinds.append("eval:at_stationary")
             elif r < 0.88 and m.kind == "operator" and m.fixed_point() is not None:
                 xf, _, ff = self.f.fixed_point()
                 self.bind_point(xf, m.fixed_point())
@@ -292,6 +309,8 @@ def edge_params(cls, rng, base):
     """boundary regimes on top of the table's samplers"""
     p = dict(base)
     r = rng.random()
+    if p.get("L") == float("inf"):
+        return p                     # the limit value itself is the edge
     if "mu" in p and "L" in p and isinstance(p["L"], float) and r < 0.15 and cls != "SymmetricLinearOperator":
         p["mu"] = p["L"] * 0.999
     elif "mu" in p and r < 0.3 and cls not in ("SymmetricLinearOperator", "CocoerciveStronglyMonotoneOperator"):
@@ -374,6 +393,13 @@ def run_shard(spec):
                              "what": "%s: a real member (%s, %s) violates the generated %s '%s' by %.3e (terms of size %.3g); "
                                      "%d samples, events %s" % (cls, fam, regime(params), k, name, v, mag, len(s.f.list_of_points), kinds),
                              "params": {a: (b if b != float("inf") else "inf") for a, b in params.items()}, "member": fam, "events": kinds})
+        counters["requeries_of_nondifferentiable"] = counters.get("requeries_of_nondifferentiable", 0) + getattr(s, "n_requery", 0)
+        if getattr(s, "unrepresentable", None):
+            key = "admissible_subgradient_not_representable:%s" % cls
+            if len(viol) < 12 and not any(x["key"] == key for x in viol):
+                viol.append({"key": key, "cls": cls, "rng": sd, "member": fam, "events": kinds,
+                             "params": {a: (b if b != float("inf") else "inf") for a, b in params.items()},
+                             "what": "%s (not declared differentiable), member %s: %s; events %s" % (cls, fam, s.unrepresentable[0], kinds)})
         if len(samples) < 2:
             samples.append({"rng": sd, "cls": cls, "member": s.member.describe(), "params": regime(params), "events": kinds,
                             "n_samples": len(s.f.list_of_points), "n_constraints": len(res),
